@@ -297,7 +297,10 @@ def histories(level):
                 if "f" not in s and bg != "nest" and bf != fb[0]:
                     continue
                 for inp in inputs:
-                    out.append({"f": bf, "g": bg, "seq": "".join(s), "inp": inp})
+                    for form in ("plain", "composite", "scaled"):
+                        if form != "plain" and inp != inputs[0] and level == 0:
+                            continue
+                        out.append({"f": bf, "g": bg, "seq": "".join(s), "inp": inp, "form": form})
     return out
 
 
@@ -333,9 +336,13 @@ def run_history(h, p):
     cur = x
     exc = None
     try:
+        form = h.get("form", "plain")
         for c in h["seq"]:
             fn = F[c]
-            r = fn(cur, y) if fn.nargs == 2 else fn(cur)
+            # argument forms: bare wires, two-term combinations (need a fresh caller-side wire each),
+            # scaled single wires
+            a1, a2 = {"plain": (cur, y), "composite": (cur + 1, y + 2), "scaled": (cur * 3, y * (-1))}[form]
+            r = fn(a1, a2) if fn.nargs == 2 else fn(a1)
             first = r[0] if isinstance(r, list) else r
             if isinstance(first, rt.LinComb):
                 cur = first
@@ -392,7 +399,7 @@ def _task(t):
             st["transitions"] += len(spec["vars"]) + len(spec["cons"]) + 1
         elif kind == "hist":
             res, info = run_history(spec, p)
-            desc = "f=%s g=%s calls=%s inputs=%s" % (spec["f"], spec["g"], spec["seq"], spec["inp"])
+            desc = "f=%s g=%s calls=%s inputs=%s args=%s" % (spec["f"], spec["g"], spec["seq"], spec["inp"], spec.get("form"))
             st["transitions"] += len(spec["seq"]) + 1
         else:
             res, info = run_inconsistent(p)
